@@ -132,6 +132,17 @@ func checkC16(tier string) *Report {
 			cases = append(cases, tc{"transfer/channel-7/" + base, "transfer", "channel-7", "channel-0", a}, tc{"transfer/channel-9/" + base, "transfer", "channel-9", "channel-1", a})
 		}
 	}
+	// source port / channel SHAPES: every identifier ICS-24 accepts can name the counterparty's end, not only channel-N —
+	// crossed with a native base, the hashed voucher in the escrow, a two-hop trace and an amount spelling
+	for _, sp := range []string{"transfer", "icahost", "wasm.abc", "TRANSFER", "transfer2"} {
+		for _, sc := range []string{"channel-7", "channel-noble", "chan.to_noble+01", "CHANNEL-1", "channel-18446744073709551616", "ics20-chan-7", "channel-07", "channel.noble", "channel-7x", "07-tendermint-0"} {
+			for _, base := range []string{denomUSDC, denomHashedVoucher, "transfer/channel-3/uatom", denomOTH, "ibc/" + strings.Repeat("0", 64), "ibc/x", "IBC/27394FB092D2ECCD56123C74F36E4C1F926001CEADA9CA97EA622B25F41E5EB2"} {
+				for _, a := range []string{"1000", "0x3e8"} {
+					cases = append(cases, tc{sp + "/" + sc + "/" + base, sp, sc, "channel-0", a})
+				}
+			}
+		}
+	}
 	rep.Extra["cases"] = len(cases)
 	memo := Memo(w0.FwdInternal(w0.Bob), nil)
 	parallelFor(worlds, len(cases), func(w *World, i int) {
